@@ -1,7 +1,7 @@
 (* Props/C17.v — the property theorems for C17 (indexed FASTA random access).
    Only statements, `exact <lemma>` and Print Assumptions live here. *)
 From Coq Require Import ZArith List Bool String.
-From BNP Require Import Base.Prims Model.C17 Proofs.C17 Proofs.C17_index Proofs.C17_e2e Gen.C17 Bridge.C17.
+From BNP Require Import Base.Prims Model.C17 Proofs.C17 Proofs.C17_index Proofs.C17_e2e Proofs.C17_chunks Gen.C17 Bridge.C17.
 Import ListNotations.
 Open Scope Z_scope.
 
@@ -70,6 +70,23 @@ Theorem C17_built_index_rows :
 Proof. exact model_index_length. Qed.
 Print Assumptions C17_built_index_rows.
 
+(* create_index reads the file in chunks (runs of whole records, C01) and shifts every chunk's rows by
+   cumsum([0] + chunk sizes): for EVERY grouping of the records into chunks - any number of chunks, any sizes - the
+   result is the index the format defines for the whole file (and the index of the file read in one piece). *)
+Theorem C17_chunked_index_correct :
+  forall eol rss, eol_ok eol -> Forall (Forall rec_wf) rss ->
+    model_index_chunks (map (layout eol) rss) = spec_index eol (List.concat rss)
+    /\ model_index_chunks (map (layout eol) rss) = model_index (List.concat (map (layout eol) rss)).
+Proof. exact (fun eol rss He Hwf => conj (model_index_chunks_layout eol rss He Hwf) (model_index_chunks_whole eol rss He Hwf)). Qed.
+Print Assumptions C17_chunked_index_correct.
+
+(* the index is a function of the records' shapes (name, length, width, bytes in the file) alone: lets the
+   correspondence check a 12 MB file (three reader chunks at the library's default chunk size) without its bytes *)
+Theorem C17_index_from_shapes :
+  forall eol rs pos, spec_index_from pos eol rs = spec_index_shapes_from pos (len eol) (map (shape_of eol) rs).
+Proof. exact spec_index_shapes. Qed.
+Print Assumptions C17_index_from_shapes.
+
 (* T4: the reported contig length is the sequence length column of the index. *)
 Theorem C17_contig_length : forall ix, contig_length ix = i_rlen ix.
 Proof. exact (fun ix => eq_refl). Qed.
@@ -98,8 +115,10 @@ Theorem C17_source_tie :
         /\ gen_fast_n_del rlen offset lenc lenb a b = m_n_del lenc a b
         /\ gen_fast_start_mod rlen offset lenc lenb a b = a mod lenc
         /\ gen_fast_del_index lenb (a mod lenc) j = m_del_index lenb (a mod lenc) j)
-  /\ gen_contig_length_column = contig_length_column.
+  /\ gen_contig_length_column = contig_length_column
+  /\ (forall sizes start offset, gen_ci_offsets sizes = m_ci_offsets sizes /\ gen_ci_shift start offset = m_ci_shift start offset).
 Proof.
+  refine (let H := _ in conj (proj1 H) (conj (proj1 (proj2 H)) (conj (proj2 (proj2 H)) (fun sz st o => conj (b_ci_offsets sz) (b_ci_shift st o))))).
   exact (conj (fun r o c b => conj (b_getitem_n_rows r o c b) (conj (b_getitem_bytes_to_read r o c b) (b_getitem_seek r o c b)))
         (conj (fun r o c b x y j => conj (b_slow_seek r o c b x y) (conj (b_slow_read_len r o c b x y) (conj (b_slow_n_del r o c b x y)
                (conj (b_slow_del_index r o c b x y j) (conj (b_fast_read_start r o c b x y) (conj (b_fast_read_len r o c b x y)
